@@ -133,7 +133,7 @@ func errKind(err error) string {
 		{waddrmgr.ErrCrypto, "crypto"}, {waddrmgr.ErrAddressNotFound, "notfound"}, {waddrmgr.ErrAccountNotFound, "acctnotfound"},
 		{waddrmgr.ErrDuplicateAddress, "dupaddr"}, {waddrmgr.ErrDuplicateAccount, "dupacct"}, {waddrmgr.ErrTooManyAddresses, "toomany"},
 		{waddrmgr.ErrInvalidAccount, "invalidacct"}, {waddrmgr.ErrAccountNumTooHigh, "invalidacct"}, {waddrmgr.ErrKeyChain, "keychain"},
-		{waddrmgr.ErrScopeNotFound, "scopenotfound"},
+		{waddrmgr.ErrScopeNotFound, "scopenotfound"}, {waddrmgr.ErrAccountNotCached, "notcached"},
 	}
 	for _, c := range codes {
 		if waddrmgr.IsError(err, c.c) {
